@@ -18,6 +18,7 @@ package json
 
 import (
 	"encoding/base64"
+	stdjson "encoding/json"
 	"runtime"
 	"strconv"
 	"unicode/utf16"
@@ -552,6 +553,10 @@ func SkipValue(src string, pos int) (ret int, start int) {
 	case '-', '+', '0', '1', '2', '3', '4', '5', '6', '7', '8', '9':
 		ret = skipNumber(src, pos)
 	default:
+		ret = -int(types.ERR_INVALID_CHAR)
+	}
+	// skipPair only matches the brackets: what lies between them must be JSON too
+	if (src[pos] == '{' || src[pos] == '[') && ret > 0 && !stdjson.Valid(rt.Str2Mem(src[pos:ret])) {
 		ret = -int(types.ERR_INVALID_CHAR)
 	}
 	return ret, pos
